@@ -1,6 +1,68 @@
 import SigpyVerif.Model.Py
 import SigpyVerif.Model.Proto
+import SigpyVerif.Model.C19
 namespace SigpyVerif.Drv.C19
+open SigpyVerif SigpyVerif.Proto SigpyVerif.C19
+
+def toG (z : Rat × Rat) : GRat := ⟨z.1, z.2⟩
+def fmtG (z : GRat) : String := s!"{fmtRat z.re};{fmtRat z.im}"
+def getGList (toks : List String) (k : String) : Option (List GRat) :=
+  ((kv toks k).bind parseCRatList?).map (·.map toG)
+def getG (toks : List String) (k : String) (dflt : GRat) : Option GRat :=
+  match kv toks k with
+  | none => some dflt
+  | some s => (parseCRat? s).map toG
+
+def pairs : List GRat → Option (List (GRat × GRat))
+  | [] => some []
+  | x :: y :: t => (pairs t).map ((x, y) :: ·)
+  | _ => none
+def triples : List GRat → Option (List (GRat × GRat × GRat))
+  | [] => some []
+  | x :: y :: z :: t => (triples t).map ((x, y, z) :: ·)
+  | _ => none
+
+/-- hints of ab2rf: `cj > 0` real and `cj²·(|a[ii]|² + |b[ii]|²) = |a[ii]|²`, along the model's own recursion -/
+def hintsOk : List GRat → List GRat → List GRat → Nat → Bool
+  | _, _, _, 0 => true
+  | [], _, _, _ + 1 => false
+  | cj :: cs, a, b, n + 1 =>
+    match a[n]?, b[n]? with
+    | some an, some bn =>
+      if cj.im == 0 && decide (0 < cj.re) && an != ⟨0, 0⟩ &&
+          cj.re * cj.re * (GRat.normSq an + GRat.normSq bn) == GRat.normSq an then
+        let ab := peel cj (peelS cj an bn) a b n
+        hintsOk cs ab.1 ab.2 n
+      else false
+    | _, _ => false
+
 /-- protocol handler for property C19 (tokens after the property id). -/
-def handle (_toks : List String) : String := "err bad-op"
+def handle (toks : List String) : String :=
+  match toks.head? with
+  | some "sim" =>
+    match kv toks "kind", getGList toks "p", getG toks "zf" ⟨1, 0⟩, getG toks "a0" ⟨1, 0⟩, getG toks "b0" ⟨0, 0⟩ with
+    | some kind, some p, some zf, some a0, some b0 =>
+      let s0 := (a0, b0)
+      let out : Option (GRat × GRat) :=
+        if kind == "ck" then (pairs p).map fun w => sim ckStep w s0
+        else if kind == "hp" then (triples p).map fun w => finalPhase zf (sim hpStep w s0)
+        else if kind == "bs" then (triples p).map fun w => finalPhase zf (sim bsStep w s0)
+        else if kind == "ptx" then (pairs p).map fun w => ptxOut (sim ptxStep w s0)
+        else if kind == "compose" then (pairs p).bind fun w => match w with
+          | [s1, s2] => some (compose s2 s1)
+          | _ => none
+        else none
+      match out with
+      | some s => s!"ok {fmtG s.1} {fmtG s.2}"
+      | none => "err bad-op"
+    | _, _, _, _, _ => "err bad-op"
+  | some "ab2rf" =>
+    match getGList toks "a", getGList toks "b", getGList toks "c" with
+    | some a, some b, some c =>
+      if a.length ≠ b.length || c.length ≠ a.length then "err size" else
+      if !hintsOk c a b a.length then "err bad-hint" else
+      let r := ab2rfLoop c a b a.length
+      s!"ok {",".intercalate (r.map fun cs => fmtG cs.1 ++ "," ++ fmtG cs.2)}"
+    | _, _, _ => "err bad-op"
+  | _ => "err bad-op"
 end SigpyVerif.Drv.C19
